@@ -159,9 +159,8 @@ def must_reinit(prog, f, M, assume=None, depth=0):
     return (set(exit_state) if exit_state is not None else set(M)), per_return, cfg
 
 
-def reset(ctx, c):
+def reset(ctx, c, R="R-C04-reset"):
     prog = ctx.prog
-    R = "R-C04-reset"
     chunk = prog.own_method(c, "compute_chunk")
     fin = prog.own_method(c, "finalize")
     init = prog.own_method(c, "__init__")
